@@ -22,3 +22,6 @@ open CaddyModel.C11
 #print axioms effective_old_code_depends_on_route_order
 #print axioms redirect_port_full_fails
 #print axioms redirect_exists_full_fails
+#print axioms cf_off_manages_nothing
+#print axioms cf_named_site_qualifies
+#print axioms cf_http_only_name_not_managed
